@@ -279,6 +279,8 @@ def run_scenario(case, *, inspect=None, max_steps=400_000):
     obs.world = world
     obs.sessions = {}
     obs.faults_fired = []
+    obs.extra_harness_tasks = set()
+    obs.late = {}
     obs.close_completed = None
     obs.phase = "init"
     with world:
@@ -323,6 +325,22 @@ def run_scenario(case, *, inspect=None, max_steps=400_000):
                         # the peers stay connected but do nothing any more: close() must complete anyway
                         for t in tasks.values():
                             t.cancel()
+                    for i, d in enumerate(f.get("newcomers") or ()):
+                        # somebody connects while close() is under way: refused, or served and
+                        # taken down with the rest - never a session that close() leaves behind
+                        async def late(i=i, d=d):
+                            await asyncio.sleep(d)
+                            p = RawPeer(world, f"late{i}", reply_timeout=1e5)
+                            rec = obs.late[i] = {"delay": d, "accepted": False}
+                            try:
+                                rec["greeting"] = (await p.connect())[0]
+                                rec["accepted"] = True
+                                rec["user"] = (await p.cmd("USER anonymous"))[0]
+                                await p.reply(1e6)  # then it stays connected and silent
+                            except (OSError, PeerGone, ReplyTimeout) as e:
+                                rec["ended"] = type(e).__name__
+
+                        obs.extra_harness_tasks.add(world.spawn(late(), f"late{i}"))
             elif kind == "send":
                 if peer is not None and peer.writer is not None and not peer.writer.transport.is_closing():
                     peer.note("C", f["line"])
